@@ -378,6 +378,22 @@ int main(int argc, char **argv) {
 	e3_dfs("leave-mid-period", {{{1, 0, 0, 2}}, {{0, 3}}}, b, cap);
 	e3_dfs("deferred-restart", {{{0, 0, 1, 0}}, {{0, 0}}}, b, cap);
 	e3_dfs("two-registrations", {{{1, 1, 0, 2}}, {{0, 1, 2}}}, b, cap);
+	// two registrations race while the period requested by an earlier one completes in between (the registrations then compute
+	// different targets and both must get their target into the desired counter)
+	e3_dfs("await,qs,await||qs,await", {{{1, 0, 1, 2}}, {{0, 1, 2}}}, b, cap);
+	e3_dfs("await,qs,await||qs,qs,await", {{{1, 0, 1}}, {{0, 0, 1}}}, b, cap);
+	e3_dfs("await,qs,barrier||qs,await", {{{1, 0, 5}}, {{0, 1, 0, 0}}}, b, cap);
+	// the whole family {qs,await}^4 || {qs,await}^2 (thorough: ^4 || ^3): whatever combination of acknowledgements and
+	// registrations a defect needs (e.g. two registrations computing different targets around a period that completes in
+	// between), it is one of these spaces
+	for(unsigned la = 0; la < 16; la++) for(unsigned lb = 0; lb < (t ? 8u : 4u); lb++) {
+		Script A, B; std::string tag;
+		for(int k = 0; k < 4; k++) { int op = (la >> k) & 1; A.ops.push_back(op); tag += op ? 'a' : 'q'; }
+		tag += "||";
+		for(int k = 0; k < (t ? 3 : 2); k++) { int op = (lb >> k) & 1; B.ops.push_back(op); tag += op ? 'a' : 'q'; }
+		if(la == 0 && lb == 0) continue; // nothing registered
+		e3_dfs("family:" + tag, {A, B}, t ? 3 : 2, t ? 300000 : 40000);
+	}
 	e3_dfs("barrier||qs", {{{5}}, {{0, 0, 0}}}, b, cap);
 	e3_dfs("3agents", {{{1, 0}}, {{0}}, {{0, 3}}}, t ? 3 : 2, t ? 2000000 : cap);
 	e3_random(scaled(500, 20000));
